@@ -162,6 +162,11 @@ func c08Child(args []string) {
 				for _, env := range b.envs {
 					cp.expect = append(cp.expect, fxRun(p, env))
 				}
+				// the program the goroutines share is a FRESH compilation that no one has run yet: whatever a first
+				// run (or a first error report) initialises lazily inside the program is initialised concurrently
+				if p2, err2, pan2 := fxCompile(src, b.opts); err2 == nil && pan2 == "" && p2 != nil && fxProgCanon(p2) == cp.canon {
+					cp.prog = p2
+				}
 			}
 			if b.cfg.Name == "noenv" {
 				for _, env := range b.envs {
@@ -258,6 +263,40 @@ func c08Child(args []string) {
 	}
 	close(start)
 	wg.Wait()
+	// first-use stampede: a freshly compiled program is run for the very first time by all goroutines at once
+	// (whatever the library initialises lazily on a first run or a first error report happens concurrently),
+	// for the failing and multi-line sources in particular
+	trials := 12
+	if n*m > 4000 {
+		trials = 60
+	}
+	for _, cp := range progs {
+		if cp.prog == nil || !(strings.Contains(cp.src, "\n") || strings.Contains(cp.expect[0], "ERR") || strings.Contains(cp.src, "matches")) || cp.cfg.Name != "env-struct" {
+			continue
+		}
+		for t := 0; t < trials; t++ {
+			p, err, pan := fxCompile(cp.src, cp.opts)
+			if err != nil || pan != "" || p == nil {
+				break
+			}
+			gate := make(chan struct{})
+			var w2 sync.WaitGroup
+			for g := 0; g < n; g++ {
+				w2.Add(1)
+				go func(g int) {
+					defer w2.Done()
+					<-gate
+					v := g % 2
+					if out := fxRun(p, envOf[cp.cfg][v]); out != cp.expect[v] {
+						diverge(c08Divergence{"first-run", cp.cfg.Name, cp.src, cp.expect[v], out})
+					}
+				}(g)
+			}
+			close(gate)
+			w2.Wait()
+			res.Ops["first-run"] += n
+		}
+	}
 	for _, oc := range opCounts {
 		for k, v := range oc {
 			res.Ops[k] += v
